@@ -170,6 +170,9 @@ def desugar (ps : PState) (toks : List String) : List String :=
     transposition by the axes vector `rollAxes` builds -/
 def desugarRoll (ps : PState) (toks : List String) : List String :=
   match toks with
+  -- the same function given as `func(T) (T, error)` (never failing): the specification does not tell the two forms
+  -- apart (M does: the `MapIncrErr*` kernels differ from the `MapIncr*` kernels, inside the region of F34)
+  | "un" :: "applyerr" :: rest => "un" :: "apply" :: rest
   | ["roll", v, axis, start, safe] =>
     match ps.obj v, axis.toInt?, start.toInt? with
     | some (_, t), some a, some st =>
